@@ -452,8 +452,10 @@ def membership(P, rep, rule="M1"):
             continue
         conj = []
 
+        from .guard import expand_cond
+
         def split(c):
-            c = sc(c)
+            c = sc(expand_cond(P, F, c))      # named bools stand for their conditions
             if c.get("k") == "BinaryOperator" and c.get("op") == "&&":
                 split(c["c"][0])
                 split(c["c"][1])
@@ -493,7 +495,7 @@ def membership(P, rep, rule="M1"):
         # depth gate
         outer = None
         for a in F.ancestors(inner):
-            if a.get("k") == "IfStmt" and "point_inside" in norm.render(P, a["c"][0]):
+            if a.get("k") == "IfStmt" and "point_inside" in norm.render(P, expand_cond(P, F, a["c"][0])):
                 outer = a
         conj.clear()
         if outer is not None:
